@@ -1,11 +1,13 @@
 import Stackage.Driver.Render
 import Stackage.Spec.CondSpec
+import Stackage.Model.Traverse
 
 namespace Stackage.Driver
 open Stackage
 
 inductive CHOp where
   | hold
+  | free
   | op (o : CondOp)
   | cond (kw : Val) (o : Op) (ex : Val)
   | bad
@@ -13,6 +15,7 @@ inductive CHOp where
 def parseCHOp (ts : List String) : CHOp :=
   match ts with
   | ["hold"] => .hold
+  | ["free"] => .free
   | ["init"] => .op .init
   | "cond" :: rest =>
     let (kw, r1) := parseVal rest
@@ -31,11 +34,26 @@ def parseCHOp (ts : List String) : CHOp :=
   | ["err", n] => .op (.setErr (if n == "0" then none else some (toNat n)))
   | _ => .bad
 
+/-- `And().Push(c).Traverse(0, 0)`: through the Condition into the Stack it holds (model: `Stk.traverse`) -/
+def travCnd (c : Cnd) : String :=
+  match Stk.traverse closures ⟨{ kind := Gen.kind_and }, [.cnd .native c.cfg c.kw c.op c.ex]⟩ [0, 0] with
+  | .ok (v, ok) => s!"{short v}:{b01 ok}"
+  | .error _ => "FAULT"
+
+/-- the same by the property's words: the first element of the expression if that is a Stack (any form) and the element is not nil -/
+def travSpec (ex : Val) : String :=
+  match ex with
+  | .stk _ _ (x :: _) => if x.isNil then "N:0" else s!"{short x}:1"
+  | _ => "N:0"
+
 def obsCnd (c : Cnd) : String :=
-  s!"K{hx c.kw} O{Op.str c.op} X{short c.ex} V{b01 (c.valid closures).isNone} R{b01 c.cfg.err.isSome} N{b01 c.CanNest} G{b01 c.IsNesting} S{hx (c.string closures)}"
+  s!"K{hx c.kw} O{Op.str c.op} X{short c.ex} V{b01 (c.valid closures).isNone} R{b01 c.cfg.err.isSome} N{b01 c.CanNest} G{b01 c.IsNesting} S{hx (c.string closures)} T{travCnd c}"
 
 def obsCSpec (s : CondSpec.St) : String :=
-  s!"K{hx s.kw} O{Op.str s.op} X{short s.ex} V{b01 (CondSpec.valid closures s)} R{b01 s.err} N{b01 (!s.nnest)} G{b01 s.ex.isStack} S{hx (CondSpec.string closures s)}"
+  s!"K{hx s.kw} O{Op.str s.op} X{short s.ex} V{b01 (CondSpec.valid closures s)} R{b01 s.err} N{b01 (!s.nnest)} G{b01 s.ex.isStack} S{hx (CondSpec.string closures s)} T{travSpec s.ex}"
+
+/-- what a zero-valued Condition (never initialised, or released with `Free`) answers -/
+def obsZero : String := "K- O- XN V0 R0 N0 G0 S- TN:0"
 
 /-- a second handle on the instance (`held := c`, or what `Push(c)` stored): the same instance until the variable is
 re-initialised (`Init` / `Cond` replace the instance the variable refers to); from then on the copy keeps what it had -/
@@ -43,18 +61,27 @@ structure Held (α : Type) where
   cur : α
   held : Option α := none
   attached : Bool := false
+  /-- the variable has been released with `Free` (a zero handle): every setter is inert until `Init` / `Cond` -/
+  zero : Bool := false
 
 def Held.step {α : Type} (h : Held α) (replaces : Bool) (c' : α) : Held α :=
-  if replaces then { h with cur := c', attached := false }
+  if replaces then { h with cur := c', attached := false, zero := false }
+  else if h.zero then h
   else if h.attached then { cur := c', held := some c', attached := true }
   else { h with cur := c' }
 
-def Held.hold {α : Type} (h : Held α) : Held α := { h with held := some h.cur, attached := true }
+/-- `Free()`: refused on a read-only instance; otherwise the *handle* becomes zero - a copy of the handle kept elsewhere still refers
+to the instance, which stays exactly as it was -/
+def Held.free {α : Type} (h : Held α) (ro : α → Bool) : Held α :=
+  if h.zero || ro h.cur then h else { h with zero := true, attached := false }
+
+def Held.hold {α : Type} (h : Held α) : Held α := if h.zero then { h with held := none, attached := false } else { h with held := some h.cur, attached := true }
 
 def Held.obs {α : Type} (h : Held α) (f : α → String) : String :=
+  let c := if h.zero then obsZero else f h.cur
   match h.held, h.attached with
-  | some x, false => s!"{f h.cur} H[ {f x} ]"
-  | _, _ => f h.cur
+  | some x, false => s!"{c} H[ {f x} ]"
+  | _, _ => c
 
 def CHOp.replaces : CHOp → Bool
   | .op .init => true
@@ -69,6 +96,7 @@ def runCondHist (payload : String) : String × String × String :=
   let (_, ms) := ops.foldl (fun (acc : Held Cnd × List String) op =>
       let h' := match op with
         | .hold => acc.1.hold
+        | .free => acc.1.free Cnd.readOnly
         | .op o => acc.1.step op.replaces (acc.1.cur.apply o)
         | .cond kw o ex => acc.1.step true (Cnd.cond closures kw o ex)
         | .bad => acc.1
@@ -76,6 +104,7 @@ def runCondHist (payload : String) : String × String × String :=
   let (_, ss) := ops.foldl (fun (acc : Held CondSpec.St × List String) op =>
       let h' := match op with
         | .hold => acc.1.hold
+        | .free => acc.1.free (fun s => s.ro)
         | .op o => acc.1.step op.replaces (CondSpec.step closures acc.1.cur o)
         | .cond kw o ex => acc.1.step true (CondSpec.cond closures kw o ex)
         | .bad => acc.1
